@@ -27,6 +27,8 @@ func main() {
 	switch cfg.Mode {
 	case "coincide":
 		runCoincide(cfg, rep)
+	case "fanout":
+		runFanout(cfg, rep)
 	default:
 		runStress(cfg, rep)
 	}
@@ -409,6 +411,125 @@ func runCoincide(cfg *vc.Config, rep *vc.Report) {
 		}
 		rep.Inc("both_ready_wakeups")
 		rep.DistinctCase(vc.Hash64(fmt.Sprint(nWait, order, hAcc, victim.acc, i%50)))
+		if rep.WantSample() {
+			rep.Sample(desc)
+		}
+	})
+}
+
+// ---------------------------------------------------------------------------------------------- fan-out at release
+
+// runFanout: one holder blocks k mutually compatible waiters (readers of one account, writers of disjoint accounts, a
+// mix, optionally with a waiter cancelled while queued). When the holder releases, every waiter must be granted while
+// the others still hold (they keep their locks until all are in): "grants every pending request once the conflicting
+// holders have released".
+func runFanout(cfg *vc.Config, rep *vc.Report) {
+	cfg.Cases(600, 40000, func(i int, r *vc.Rand) {
+		locker := command.NewDefaultLocker()
+		pool := []string{"a", "b", "c", "d", "e", "f"}
+		k := r.Range(2, 5)
+		kind := r.Intn(3)
+		var hAcc command.Accounts
+		accs := make([]command.Accounts, k)
+		switch kind {
+		case 0: // readers behind a writer
+			hAcc = command.Accounts{Write: []string{"a"}}
+			for j := range accs {
+				accs[j] = command.Accounts{Read: []string{"a"}}
+			}
+		case 1: // writers of disjoint accounts behind a holder of all of them
+			hAcc = command.Accounts{Write: pool[:k]}
+			for j := range accs {
+				accs[j] = command.Accounts{Read: []string{pool[j]}, Write: []string{pool[j]}}
+			}
+		case 2: // mix
+			hAcc = command.Accounts{Write: []string{"a", "b"}}
+			for j := range accs {
+				if j == 0 {
+					accs[j] = command.Accounts{Write: []string{"b"}}
+				} else {
+					accs[j] = command.Accounts{Read: []string{"a"}}
+				}
+			}
+		}
+		cancelIdx := -1
+		if k > 2 && r.Chance(1, 3) {
+			cancelIdx = 1 + r.Intn(k-2) // a waiter in the middle of the queue gives up before the release
+		}
+		rep.Eval()
+		rep.Inc(fmt.Sprintf("fanout_kind_%d", kind))
+		desc := map[string]any{"index": i, "holder": hAcc, "waiters": accs, "cancelled_waiter": cancelIdx}
+		hUnlock, err := locker.Lock(context.Background(), hAcc)
+		if err != nil {
+			rep.Violate("error-without-cancellation:fanout", err.Error(), i, desc)
+			return
+		}
+		granted := make(chan int, k)
+		cancelled := make(chan int, k)
+		releaseAll := make(chan struct{})
+		var wg sync.WaitGroup
+		cancels := make([]context.CancelFunc, k)
+		for j := 0; j < k; j++ {
+			ctx, cancel := context.WithCancel(context.Background())
+			cancels[j] = cancel
+			wg.Add(1)
+			go func(j int) {
+				defer wg.Done()
+				u, err := locker.Lock(ctx, accs[j])
+				if err != nil {
+					cancelled <- j
+					return
+				}
+				granted <- j
+				<-releaseAll
+				u(context.Background())
+			}(j)
+			// queue order = j: give the goroutine time to reach the queue
+			for y := 0; y < 50; y++ {
+				runtime.Gosched()
+			}
+			time.Sleep(200 * time.Microsecond)
+		}
+		time.Sleep(2 * time.Millisecond)
+		want := k
+		if cancelIdx >= 0 {
+			cancels[cancelIdx]()
+			select {
+			case <-cancelled:
+			case <-time.After(20 * time.Second):
+				rep.Inconc("cancelled waiter did not return")
+			}
+			want--
+			rep.Inc("fanout_with_cancelled_waiter")
+		}
+		hUnlock(context.Background())
+		got := 0
+		timeout := time.After(20 * time.Second)
+	wait:
+		for got < want {
+			select {
+			case <-granted:
+				got++
+			case <-timeout:
+				break wait
+			}
+		}
+		if got < want {
+			rep.Violate("grantable-request-left-pending:fanout", fmt.Sprintf("the holder released; %d of %d mutually compatible waiters were granted, the others are still pending although nothing they conflict with is held", got, want), i, desc)
+			close(releaseAll)
+			rep.Write(true)
+			os.Exit(0)
+		}
+		close(releaseAll)
+		wg.Wait()
+		for _, c := range cancels {
+			c()
+		}
+		if held := leaked(locker, pool); held != nil {
+			rep.Violate("lock-left-behind:fanout", strings.Join(held, ","), i, desc)
+		}
+		rep.Add("fanout_grants", int64(got))
+		rep.DistinctCase(vc.Hash64(fmt.Sprint("fanout", kind, k, cancelIdx)))
 		if rep.WantSample() {
 			rep.Sample(desc)
 		}
